@@ -9,6 +9,14 @@ from ..interp_prop import InterpProp
 
 class C15(InterpProp):
     id = 'C15'
+    # observables compared with the model (see InterpProp.normalize)
+    cmp_eff = ('meta',)
+    cmp_meta = ('event sent', 'delayed event sent')
+    cmp_step = ('event', 'sent')
+    cmp_slot = ()
+    cmp_callbacks = True
+    cmp_err = 'class'
+    cmp_time = False
     quick_cases = 600
     thorough_cases = 15000
     n_ops = 40
